@@ -6,5 +6,5 @@ git -C /repo worktree add -q --detach $wt HEAD || exit 9
 sed -i "$expr" $wt/$f
 git -C $wt diff --stat | tail -1
 (cd $wt && GOFLAGS=-mod=mod GOPROXY=off go build ./... ) || { echo BUILDFAIL; git -C /repo worktree remove --force $wt; exit 9; }
-cd /verif && VERIF_REPO=$wt VERIF_OUT=/var/tmp/adhoc-out ./bin/vcheck run $prop "$@" 2>&1 | grep -E "VIOLATION|SPURIOUS|INCONCL|property " | cut -c1-220 | head -5
+cd /verif && VERIF_REPO=$wt VERIF_OUT=/var/tmp/adhoc-out ${VCHECK:-./bin/vcheck} run $prop "$@" 2>&1 | grep -E "VIOLATION|SPURIOUS|INCONCL|property " | cut -c1-220 | head -5
 git -C /repo worktree remove --force $wt
